@@ -35,6 +35,7 @@ pub trait Future {
 //   sid()        identity of the stream; item_src(x) the identity of the stream that produced item x
 //   seq()        how many items it has produced; item_seq(x) the position of x in its stream
 //   remaining()  how many items it will still produce ("honest hints": size_hint brackets it)
+//   polls()      how often poll_next has been called
 //   polled_pending()  the last poll_next answered Pending (so the stream holds the task waker)
 pub trait Stream {
     type Item;
@@ -42,6 +43,9 @@ pub trait Stream {
     spec fn sid(&self) -> int;
     spec fn seq(&self) -> nat;
     spec fn remaining(&self) -> nat;
+    spec fn polls(&self) -> nat;
+    spec fn polled_pending(&self) -> bool;
+    spec fn item_fresh(x: &Self::Item) -> bool;
     spec fn item_src(x: &Self::Item) -> int;
     spec fn item_seq(x: &Self::Item) -> nat;
 
@@ -53,9 +57,11 @@ pub trait Stream {
             final(self).sid() == old(self).sid(),
             (r matches Poll::Ready(None)) <==> final(self).ended(),
             r matches Poll::Ready(Some(x)) ==> final(self).seq() == old(self).seq() + 1 && final(self).remaining() + 1 == old(self).remaining()
-                && Self::item_src(&x) == old(self).sid() && Self::item_seq(&x) == old(self).seq(),
+                && Self::item_src(&x) == old(self).sid() && Self::item_seq(&x) == old(self).seq() && Self::item_fresh(&x),
             !(r matches Poll::Ready(Some(_))) ==> final(self).seq() == old(self).seq() && final(self).remaining() == old(self).remaining(),
             r matches Poll::Ready(None) ==> old(self).remaining() == 0,
+            final(self).polls() == old(self).polls() + 1,
+            final(self).polled_pending() == (r is Pending),
             cx_id(final(cx)) == cx_id(old(cx)),
             cx_wakes(final(cx)) == cx_wakes(old(cx)),
     ;
@@ -66,3 +72,11 @@ pub trait Stream {
             r.1 matches Some(hi) ==> self.remaining() <= hi,
     ;
 }
+
+/// ASSUMED (environment): a future that upstream has just produced has not completed yet.
+/// `item_fresh` is uninterpreted and only ever established by `Stream::poll_next`.
+#[verifier::external_body]
+pub proof fn axiom_fresh_item_not_terminated<S: Stream>(x: S::Item) where S::Item: Future
+    requires S::item_fresh(&x)
+    ensures !x.terminated()
+{ }
